@@ -18,24 +18,30 @@
 (*   RefreshPicksUp      after a fetch cycle that reached the endpoint, every kid the endpoint    *)
 (*                       serves resolves to the served material (rotation is picked up)           *)
 (*   MissWhenDown        a miss while the endpoint is down resolves to nothing                    *)
+(*   ResolvesServed      a kid the endpoint serves resolves whenever the endpoint is reachable    *)
+(*                       (a valid token with a newly published kid is not refused)                *)
 (* Deliberately NOT demanded (the property text does not decide it; documented I-layer facts):    *)
 (*   a withdrawn kid stays resolvable (no eviction); between fetch cycles the cache may be stale. *)
 EXTENDS Naturals, FiniteSets, TLC
 
 CONSTANTS Kids, KeyVals,
           VARIANT     \* "code" | "keepold" (rotation never picked up) | "fallback" (unknown kid -> any cached key)
+                      \* | "nowait" (once a fetch cycle has happened, a miss answers from the cache as it was BEFORE the fetch it triggers)
 
 None == "none"
 
-VARIABLES served, up, cache, ever, ev
+VARIABLES served, up, cache, ever, ev,
+          warm    \* a fetch cycle has completed before (the code keeps a fetch-generation counter; the
+                  \* behaviour of a correct store does not depend on it, histories are distinguished by it)
 
-vars == <<served, up, cache, ever, ev>>
+vars == <<served, up, cache, ever, ev, warm>>
 
 Init == /\ served = [k \in Kids |-> None]
         /\ up = TRUE
         /\ cache = [k \in Kids |-> None]
         /\ ever = [k \in Kids |-> {}]
         /\ ev = [kind |-> "init"]
+        /\ warm = FALSE
 
 \* do_fetch: merge the served keys into the cache
 Merged == [k \in Kids |-> IF served[k] = None THEN cache[k]
@@ -45,30 +51,32 @@ Merged == [k \in Kids |-> IF served[k] = None THEN cache[k]
 Publish(k, v) == /\ served' = [served EXCEPT ![k] = v]
                  /\ ever' = [ever EXCEPT ![k] = @ \cup {v}]
                  /\ ev' = [kind |-> "publish", k |-> k, v |-> v]
-                 /\ UNCHANGED <<up, cache>>
+                 /\ UNCHANGED <<up, cache, warm>>
 
 Withdraw(k) == /\ served[k] # None
                /\ served' = [served EXCEPT ![k] = None]
                /\ ev' = [kind |-> "withdraw", k |-> k]
-               /\ UNCHANGED <<up, cache, ever>>
+               /\ UNCHANGED <<up, cache, ever, warm>>
 
 Toggle == /\ up' = ~up
           /\ ev' = [kind |-> IF up THEN "down" ELSE "up"]
-          /\ UNCHANGED <<served, cache, ever>>
+          /\ UNCHANGED <<served, cache, ever, warm>>
 
 Fallback == IF \E j \in Kids : cache[j] # None THEN cache[CHOOSE j \in Kids : cache[j] # None] ELSE None
 
 Await(k) ==
   IF cache[k] # None THEN
-       /\ ev' = [kind |-> "await", k |-> k, res |-> cache[k], fetched |-> FALSE, reached |-> FALSE]
-       /\ UNCHANGED <<served, up, cache, ever>>
+       /\ ev' = [kind |-> "await", k |-> k, res |-> cache[k], fetched |-> FALSE, reached |-> FALSE, waswarm |-> warm]
+       /\ UNCHANGED <<served, up, cache, ever, warm>>
   ELSE LET c2 == IF up THEN Merged ELSE cache
-           r == IF c2[k] # None THEN c2[k] ELSE IF VARIANT = "fallback" THEN Fallback ELSE None IN
-       /\ cache' = c2
-       /\ ev' = [kind |-> "await", k |-> k, res |-> r, fetched |-> TRUE, reached |-> up]
+           r == IF VARIANT = "nowait" /\ warm THEN None
+                ELSE IF c2[k] # None THEN c2[k] ELSE IF VARIANT = "fallback" THEN Fallback ELSE None IN
+       /\ cache' = c2 /\ warm' = TRUE
+       /\ ev' = [kind |-> "await", k |-> k, res |-> r, fetched |-> TRUE, reached |-> up, waswarm |-> warm]
        /\ UNCHANGED <<served, up, ever>>
 
 Refresh == /\ cache' = IF up THEN Merged ELSE cache
+           /\ warm' = TRUE
            /\ ev' = [kind |-> "refresh", reached |-> up]
            /\ UNCHANGED <<served, up, ever>>
 
@@ -86,5 +94,6 @@ FreshOnFetch      == (ev.kind = "await" /\ ev.fetched /\ ev.reached) => ev.res =
 MissWhenDown      == (ev.kind = "await" /\ ev.fetched /\ ~ev.reached) => ev.res = None
 RefreshPicksUp    == ((ev.kind = "refresh" \/ (ev.kind = "await" /\ ev.fetched)) /\ ev.reached)
                        => \A k \in Kids : served[k] # None => cache[k] = served[k]
+ResolvesServed    == (ev.kind = "await" /\ up /\ served[ev.k] # None) => ev.res # None
 CacheWasServed    == \A k \in Kids : cache[k] # None => cache[k] \in ever[k]
 =============================================================================
